@@ -169,6 +169,26 @@ ModOK(m) == /\ m.from # m.to
             /\ m.from.ty = "CONNECT" => OneGroup(m.from, m.to)
             /\ m.from.ty \in {"SUBSCRIBE", "UNSUBSCRIBE"} => m.from.k # m.to.k     \* topics added at the end / removed from the end
 
+(* The filter list of a SUBSCRIBE / UNSUBSCRIBE is edited through AddTopic / RemoveTopic at ANY position: the message is a
+   list of (filter, requested QoS) entries; RemoveTopic deletes the entry of that filter (if there is one), AddTopic
+   replaces the QoS of the filter's entry or appends a new entry.  What Encode writes is the wire form of the list.
+   Filter j has two bytes of content, seed 10 + j.  dec: the initial list comes out of Decode (else it is built through
+   the API on a new message).                                                                                       *)
+EditOps(ty) == {<<"rm", j, 0>> : j \in 1..4} \cup {<<"add", j, q>> : j \in 1..4, q \in (IF ty = "SUBSCRIBE" THEN {0, 2} ELSE {0})}
+EditSeqs(ty) == UNION {[1..n -> EditOps(ty)] : n \in 1..3}
+Has(l, j) == \E i \in 1..Len(l) : l[i][1] = j
+ApplyOp(l, op) == IF op[1] = "rm" THEN SelectSeq(l, LAMBDA e : e[1] # op[2])
+                  ELSE IF Has(l, op[2]) THEN [i \in 1..Len(l) |-> IF l[i][1] = op[2] THEN <<op[2], op[3]>> ELSE l[i]]
+                  ELSE Append(l, <<op[2], op[3]>>)
+RECURSIVE ApplyOps(_, _)
+ApplyOps(l, ops) == IF ops = <<>> THEN l ELSE ApplyOps(ApplyOp(l, Head(ops)), Tail(ops))
+EditBase(ty) == [j \in 1..3 |-> <<j, IF ty = "SUBSCRIBE" THEN j % 3 ELSE 0>>]
+RECURSIVE ListWire(_, _)
+ListWire(ty, l) == IF l = <<>> THEN <<>> ELSE LP(2, 10 + Head(l)[1]) \o (IF ty = "SUBSCRIBE" THEN <<B(Head(l)[2])>> ELSE <<>>) \o ListWire(ty, Tail(l))
+EditWire(ty, l) == Frame(IF ty = "SUBSCRIBE" THEN 130 ELSE 162, Bs(U16(7)) \o ListWire(ty, l))
+Edits == {[ty |-> ty, dec |-> d, ops |-> ops] : ty \in {"SUBSCRIBE", "UNSUBSCRIBE"}, d \in BOOLEAN, ops \in UNION {EditSeqs(t) : t \in {"SUBSCRIBE", "UNSUBSCRIBE"}}}
+EditOK(e) == e.ops \in EditSeqs(e.ty) /\ ApplyOps(EditBase(e.ty), e.ops) # <<>>
+
 -----------------------------------------------------------------------------
 (* Total parser on explicit byte strings.  Strict: whatever is doubtful is rejected (an input
    the parser rejects puts no obligation on the implementation beyond not crashing).       *)
@@ -227,6 +247,7 @@ VARIABLE st
 Init == CASE Mode = "cases" -> st \in Cases
           [] Mode = "pads" -> st \in {p \in Pads : VarLenOf(p.case) + p.pad <= 4}
           [] Mode = "mods" -> st \in {m \in Mods : ModOK(m)}
+          [] Mode = "edits" -> st \in {e \in Edits : EditOK(e)}
           [] OTHER -> st \in Strs
 Next == UNCHANGED st
 Spec == Init /\ [][Next]_st
@@ -255,5 +276,8 @@ Emit == CASE Mode = "cases" -> PrintT(ToJson([case |-> st, wire |-> Wire(st), le
                                              len |-> Size(Wire(st.case)) + st.pad]))
           [] Mode = "mods" -> PrintT(ToJson([case |-> st.to, from |-> st.from, auto |-> st.auto, wfrom |-> Wire(st.from),
                                              wire |-> Wire(st.to), len |-> Size(Wire(st.to))]))
+          [] Mode = "edits" -> LET l == ApplyOps(EditBase(st.ty), st.ops) IN
+                                 PrintT(ToJson([edit |-> st, base |-> EditBase(st.ty), wbase |-> EditWire(st.ty, EditBase(st.ty)), final |-> l,
+                                                wire |-> EditWire(st.ty, l), len |-> Size(EditWire(st.ty, l))]))
           [] OTHER -> PrintT(ToJson([x |-> st, p |-> Parse(st)]))
 =============================================================================
